@@ -211,10 +211,10 @@ func (tr *Tr) oblige(fr *frame, kind, label, prop, reach, f string, pos token.Po
 		p := tr.G.prog.Fset.Position(pos)
 		ob.Pos = fmt.Sprintf("%s:%d", strings.TrimPrefix(p.Filename, tr.G.repoDir+"/"), p.Line)
 	}
-	if f := tr.G.findings[name]; f != nil {
+	if f := lookupFinding(tr.G.findings, name); f != nil {
 		ob.Finding = true
 	}
-	if f := tr.G.findings[name]; f != nil && f.Excuse != "" && f.Excuse != "true" && tr.topFrame != nil {
+	if f := lookupFinding(tr.G.findings, name); f != nil && f.Excuse != "" && f.Excuse != "true" && tr.topFrame != nil {
 		s, err := parseSpec(f.Excuse)
 		if err != nil {
 			vfail("known finding %s: excuse: %v", name, err)
